@@ -172,10 +172,13 @@ def reentry_sites(bodies):
         if b is None:
             raise ExtractError("re-entry analysis: %s not found" % fn)
         direct = len(re.findall(r"\bjanet_(?:continue|continue_signal|call|pcall)\s*\(", b))
-        via = len(re.findall(r"\b%s\s*\(" % re.escape(helper_ok), b)) if helper_ok else 0
+        # calls of a compile.c wrapper around janet_continue (janetc_continue): hands the depth on iff the wrapper does
+        wrappers = [nm for nm, wb in bodies.items() if wb and nm.startswith("janetc_") and re.search(r"\bjanet_continue\s*\(", wb)]
+        via = sum(len(re.findall(r"\b%s\s*\(" % re.escape(w), b)) for w in wrappers)
+        via_ok = bool(helper_ok) and via == len(re.findall(r"\b%s\s*\(" % re.escape(helper_ok), b))
         if direct + via == 0:
             raise ExtractError("re-entry analysis: %s no longer enters the interpreter" % fn)
-        sites.append(("compile->vm", fn, direct == 0 and via > 0))
+        sites.append(("compile->vm", fn, direct == 0 and via > 0 and via_ok))
     # peg matcher -> capture function / cfunction constant
     b = bodies.get("peg_rule")
     if b is None:
